@@ -4,10 +4,12 @@ Correspondence, two streams:
   fun  : the real `_apply_bounds` on vectors of (type, lower, upper, value) components -- all three boundary
          types, finite / one-sided / infinite bounds, values from inside the bounds to overshoots of +-40
          bound widths (repeated mirroring and the clip fall-back);
-  eval : `EnsembleEvaluator.calculate(compute_gradients=True)` on a validated EnOptConfig with scripted sampler
-         plug-ins injected through PluginManager.add_plugin: absolute / relative magnitudes (scalar or per
-         variable), per-variable type mixes, several samplers on disjoint variable sets, masks, -1 entries;
-         observed: validated magnitudes (or rejection), order of the sampler calls, reported
+  eval : one `EnsembleEvaluator` on a validated EnOptConfig (optionally validated in the context of a VariableScaler,
+         optionally sent through a dict round trip) with scripted sampler plug-ins injected through
+         PluginManager.add_plugin, asked for gradients at 1-3 points in sequence (function+gradient, function then
+         gradient from the cache, gradient only): absolute / relative magnitudes (scalar or per variable, zero and
+         negative ones), per-variable type mixes, several samplers on disjoint variable sets, masks, -1 entries;
+         observed: validated magnitudes (or rejection), and per call the order of the sampler calls, reported
          `perturbed_variables`, every row the evaluator callable received.
 Both are compared with Model/Bounds.v inside Coq: exactly for few-bit dyadic inputs (every float operation is
 then exact), with the DESIGN 2.2 tolerance for the full-precision stream.
@@ -29,21 +31,26 @@ SHARD_SIZE = 120
 PARALLEL = True
 RULE = ("fun stream: vectors of 12-16 components (boundary type x lower/upper finite or infinite x value); bounds k/16 in "
         "[-4,4], widths 0..4, values at base + k/16 * width * {1, 1/8, 1/64}, |k| <= 640 (up to +-40 widths), plus values "
-        "exactly on a bound; a smaller stream with full 53-bit values. eval stream: V in 1..5, R in 1..3, P in 1..4, "
-        "x inside the bounds, boundary/perturbation types scalar or per variable, 1-3 scripted samplers on disjoint "
-        "variable sets (with -1 entries), optional mask, samples j/64, j/4, 4j (|j| <= 16), function+gradient in one "
-        "call or function first and gradient from the cache; relative perturbations with an infinite bound (rejected). "
-        "Non-trivial = some component's pre-boundary value lies outside its bounds (fun) / some perturbed component "
-        "differs from the unperturbed one or the configuration is rejected (eval); distinct = distinct case hash.")
+        "exactly on a bound; every vector also as a (2,3,n) array; a smaller stream with full 53-bit values. eval stream: "
+        "one EnsembleEvaluator object, V in 1..5, R in 1..3, P in 1..4, boundary/perturbation types and magnitudes scalar or per "
+        "variable (magnitudes k/8, occasionally zero or negative), 1-3 scripted samplers on disjoint variable sets (with -1 "
+        "entries and unused samplers), optional mask, samples j/64, j/4, 4j (|j| <= 16); a request sequence of 1-3 points "
+        "inside the bounds (the configured initial values or other points, earlier points revisited), each asked as "
+        "function+gradient in one call, function then gradient from the cached function values, or gradient only; optionally "
+        "a VariableScaler (power-of-two scales, dyadic offsets) or a dict round trip of the validated configuration; "
+        "relative perturbations with an infinite bound and arrays of a wrong size (rejected). Non-trivial = some component's "
+        "pre-boundary value lies outside its bounds (fun) / some row sent to the evaluator differs from the point or the "
+        "configuration is rejected (eval); distinct = distinct case hash.")
 ASSUMPTIONS = [
     "bounds are proper: lower < +inf, upper > -inf, lower <= upper (VariablesConfig rejects lower > upper; a vector inside the bounds exists only then); the checker rejects any case that violates this",
-    "values, magnitudes and samples are finite (no NaN / inf entries)",
-    "the injected sampler returns its scripted array with zeros outside the variable set it was given (the sampler contract of ropt.plugins.sampler.base)",
-    "no variable transform is configured (the transformation of absolute magnitudes belongs to C11)",
+    "values, magnitudes and samples are finite (no NaN / inf entries); the evaluated points are inside the bounds (checked)",
+    "the injected sampler returns a fresh copy of its scripted array with zeros outside the variable set it was given (the sampler contract of ropt.plugins.sampler.base; C17 checks the built-in samplers against it)",
+    "a VariableScaler has positive scales; it is exercised with power-of-two scales and dyadic offsets so that user and optimizer domain can be compared bit for bit; that boundary handling commutes with the positive affine map is C11_apply_bounds_equivariant (here the model is evaluated in the optimizer domain and the oracle, independently, in the user domain)",
 ]
 TRUSTED = [
     "NumPy elementwise comparisons/where/clip on float64 (the model is exact rational arithmetic; for the dyadic stream all float operations are exact)",
     "pydantic validation machinery of EnOptConfig (only its outcome -- accepted arrays or rejection -- is observed)",
+    "np.allclose(rtol=0, atol=1e-15) of the evaluator's function-value cache is modelled as |a-b| <= 10^-15 on exact rationals (generated points are equal or far apart)",
 ]
 
 NONE, TRUNC, MIRROR = 1, 2, 3
@@ -122,6 +129,9 @@ def _eval_case(rng, full=False, force_reject=False, force_shape=False, force_sca
                 ub = lb + 3.0
             fixed.append((lb, ub))
         bounds = fixed
+    if force_reject and all(math.isfinite(lb) and math.isfinite(ub) for lb, ub in bounds):
+        k = rng.randrange(V)
+        bounds[k] = (bounds[k][0], INF) if rng.random() < 0.5 else (-INF, bounds[k][1])
     lbs = [b[0] for b in bounds]
     ubs = [b[1] for b in bounds]
 
@@ -226,7 +236,12 @@ def _run_fun(case):
                         np.array([c[1] for c in comps], dtype=np.float64),
                         np.array([c[2] for c in comps], dtype=np.float64),
                         np.array([c[0] for c in comps], dtype=np.ubyte))
-    return {"got": [float(v) for v in got]}
+    # the shape _perturb_variables really uses: a (realizations, perturbations, variables) array against 1-D bounds
+    y3 = np.tile(np.array([c[3] for c in comps], dtype=np.float64), (2, 3, 1))
+    got3 = _apply_bounds(y3, np.array([c[1] for c in comps], dtype=np.float64),
+                         np.array([c[2] for c in comps], dtype=np.float64), np.array([c[0] for c in comps], dtype=np.ubyte))
+    same = got3.shape == (2, 3, len(comps)) and bool(np.all(got3 == got))
+    return {"got": [float(v) for v in got], "array_same": same}
 
 
 def _run_eval(case):
@@ -431,6 +446,8 @@ def oracle(case, obs):  # noqa: C901, PLR0911, PLR0912
     if case["kind"] == "fun":
         if len(obs["got"]) != len(case["comps"]):
             return {"clause": "shape", "detail": len(obs["got"])}
+        if obs.get("array_same") is False:
+            return {"clause": "shape", "detail": "the (R, P, V) array is not processed row by row like a single vector"}
         S = _mag([v for c in case["comps"] for v in c[1:]])
         for i, ((t, lb, ub, y), got) in enumerate(zip(case["comps"], obs["got"])):
             v = _component_clauses(t, lb, ub, _F(y), got, case["exact"], S, i)
@@ -534,7 +551,9 @@ def features(case, obs):
     return {"kind": "eval" if case["exact"] else "eval-fullprec", "V": len(case["x"]), "R": case["R"], "P": case["P"],
             "samplers": len(case["scripts"]), "gs": case["gs"] is not None, "mask": case["mask"] is not None,
             "relative": RELATIVE in case["pts"], "rejected": obs["rejected"],
-            "modes": "".join(str(c["mode"]) for c in case["calls"]), "scaler": case.get("scaler") is not None,
+            "calls": len(case["calls"]), "first_mode": ["f+g", "f,g(cached)", "g-only"][case["calls"][0]["mode"]],
+            "revisit": any(case["calls"][j]["x"] == case["calls"][i]["x"] for j in range(len(case["calls"])) for i in range(j)),
+            "scaler": case.get("scaler") is not None,
             "revalidate": bool(case.get("revalidate")), "x_is_initial": case["calls"][0]["x"] == case["x"],
             "nonpositive_magnitude": any(m <= 0 for m in case["ms"]),
             "mixed_none": NONE in case["bts"] and len(set(case["bts"])) > 1,
@@ -599,20 +618,26 @@ MANIFEST = {
     "level_text": ("Machine-checked Coq proof, for every shape, every value however far outside and all proper bounds (finite, "
                    "one-sided, infinite), that the executable model of _apply_bounds/_perturb_variables (Model/Bounds.v, with "
                    "MIRROR_REPEAT and the enum codes regenerated from the source) returns x + magnitude*sum-of-samples processed per "
-                   "variable: unchanged for NONE, clip = max(lower, min(y, upper)) for TRUNCATE_BOTH, the single reflection "
-                   "2*bound - y for MIRROR_BOTH whenever that lands inside, always within the bounds for the truncate and mirror "
-                   "types, and never altered when already inside; relative magnitudes are (upper-lower)*fraction and are rejected "
+                   "variable: unchanged for NONE, clip = max(lower, min(y, upper)) for TRUNCATE_BOTH, and for MIRROR_BOTH the "
+                   "reflection 2*bound - y at the violated bound whenever that lands inside, between two finite bounds the complete "
+                   "closed form (n whole periods back, one reflection, one more at the opposite bound if needed, for overshoots up to "
+                   "2*MIRROR_REPEAT widths; the violated bound itself beyond that); always within the bounds for the truncate and "
+                   "mirror types, and never altered when already inside; magnitudes are the configured absolute value or "
+                   "(upper-lower)*fraction -- also in the user's units under a VariableScaler -- and relative magnitudes are rejected "
                    "on infinite bounds. The model is tied to the code on every run by an in-Coq comparison with the real "
-                   "_apply_bounds and with EnsembleEvaluator.calculate driven by injected scripted samplers (reported "
-                   "perturbed_variables, validated magnitudes, sampler call order and every row the evaluator received), exact for "
+                   "_apply_bounds and with one EnsembleEvaluator object driven through request sequences (function+gradient, "
+                   "function then cached gradient, gradient only, at the initial and at other points, with and without a "
+                   "VariableScaler, after a dict round trip of the configuration) with injected scripted samplers: reported "
+                   "perturbed_variables, validated magnitudes, sampler call order and every row the evaluator received, exact for "
                    "dyadic inputs."),
-    "level_note": ("For overshoots that one reflection does not repair, the property text does not fix the value; the model is the "
-                   "code's process (MIRROR_REPEAT alternating reflections per side, then clipping) and only membership in the bounds "
-                   "is proved for it. Not covered: variable transforms (transformation of absolute magnitudes is C11), NaN/inf "
-                   "values, improper bounds (lower=+inf, upper=-inf, lower>upper; rejected by the checker). Trusted: Coq kernel + "
+    "level_note": ("Not covered: NaN/inf values, improper bounds (lower=+inf, upper=-inf, lower>upper; rejected by the checker), "
+                   "non-positive scales. Under a scaler the model is evaluated in the optimizer domain; that this equals boundary "
+                   "handling in the user domain is proved for C11's model (C11_apply_bounds_equivariant) and judged here by the "
+                   "independent user-domain oracle. Beyond a single reflection the property text does not fix the MIRROR_BOTH value: "
+                   "the oracle only demands membership there, the in-Coq comparison demands the model's value. Trusted: Coq kernel + "
                    "VM, the translator (MIRROR_REPEAT, BoundaryType/PerturbationType codes), the Python driver and literal printer, "
                    "NumPy's elementwise float operations (exact on the dyadic stream; tolerance 1e-9 on the full-precision stream), "
                    "pydantic validation. All theorems print 'Closed under the global context'."),
-    "technique": "Coq proof (case analysis per mirror step, induction over vectors and the sample array) on an executable Gallina model + in-Coq differential correspondence at function level and through EnsembleEvaluator with injected sampler plug-ins",
+    "technique": "Coq proof (case analysis per mirror step, induction over the repeat count, vectors and the sample array) on an executable Gallina model + in-Coq differential correspondence at function level and through EnsembleEvaluator request sequences with injected sampler plug-ins",
     "design_ref": "DESIGN.md section 4, C10",
 }
